@@ -74,7 +74,13 @@ fn main() {
     let n_rand = if thorough { 20000 } else { 2000 };
     let mut n_abs = 0u64;
     for _ in 0..n_rand {
-        let a = random_path(&mut rng, 9); let b = random_path(&mut rng, 9);
+        let (mut a, mut b) = (random_path(&mut rng, 9), random_path(&mut rng, 9));
+        if rng.chance(2, 3) {
+            // two paths under a common (possibly deep) prefix
+            let pre = random_path(&mut rng, 10);
+            a = format!("{}/{}", pre, a.trim_start_matches('/'));
+            b = format!("{}/{}", pre, b.trim_start_matches('/'));
+        }
         if a.starts_with('/') && b.starts_with('/') { n_abs += 1; }
         distinct.insert(format!("{}|{}", a, b));
         let (t, d) = round_case(&a, &b); cases.push(t, d);
